@@ -5,9 +5,12 @@
 """
 import json, os, subprocess, sys, shutil, time
 VERIF = os.path.dirname(os.path.dirname(os.path.abspath(__file__)))
-HARM = os.path.join(VERIF, 'harmless'); REPO = '/repo'; PY = '/venv/bin/python'
+HARM = os.path.join(VERIF, 'harmless'); PY = '/venv/bin/python'
+# the tree the refactorings are applied to: /repo, or (SEED_REPO) a scratch worktree of it; the checks follow through VERIF_REPO
+REPO = os.environ.get('SEED_REPO', '/repo')
+ENV = dict(os.environ, VERIF_REPO=REPO) if REPO != '/repo' else None
 def sh(cmd, cwd=None, timeout=3600):
-    p = subprocess.run(cmd, shell=True, cwd=cwd, capture_output=True, text=True, timeout=timeout)
+    p = subprocess.run(cmd, shell=True, cwd=cwd, capture_output=True, text=True, timeout=timeout, env=ENV)
     return p.returncode, p.stdout + p.stderr
 def do_import(wt, prop, variant):
     sid = f'{prop}-{variant}'
@@ -46,7 +49,7 @@ def do_run(ids, all_checks):
         try:
             props = claimed if all_checks else [meta['property']]
             res = {}
-            procs = {p: subprocess.Popen(f'./check {p} quick', shell=True, cwd=VERIF, stdout=subprocess.PIPE, stderr=subprocess.STDOUT, text=True) for p in props}
+            procs = {p: subprocess.Popen(f'./check {p} quick', shell=True, cwd=VERIF, stdout=subprocess.PIPE, stderr=subprocess.STDOUT, text=True, env=ENV) for p in props}
             for p, pr in procs.items():
                 out = pr.communicate()[0]
                 res[p] = {'rc': pr.returncode, 'lines': [l for l in out.split('\n') if l.startswith(('VIOLATION', 'NOTE'))][:3]}
